@@ -51,6 +51,12 @@ async_queue_t *g_console_queue = NULL;
 static void look_for_objects_to_swap (void);
 static void call_heart_beat (void);
 
+#ifdef NEOLITH_VERIF
+/* verification hook H1: called at the end of every iteration of the backend() loop;
+ * a non-zero return value leaves the loop.  Never set in production builds. */
+int (*verif_backend_cycle_hook) (void) = 0;
+#endif
+
 /**
  * @brief Heart beat timer callback.
  * Sets the heart_beat_flag to trigger heart beat processing.
@@ -351,6 +357,10 @@ void backend () {
        */
       if (heart_beat_flag)
         call_heart_beat ();
+#ifdef NEOLITH_VERIF
+      if (verif_backend_cycle_hook && verif_backend_cycle_hook ())
+        break;
+#endif
     }
   pop_context (&econ);
 
